@@ -8,6 +8,9 @@ case kinds
         observed order of critical sections is part of the observation and is
         given to the model (LruConc) as the schedule.
   {"kind":"pm","num_pools":n,"ops":[["goc",k,tag],["clear"]]}   PoolManager.connection_from_url / clear
+  {"kind":"pmreq","num_pools":n,"ops":[["req",k,keep],["clear"]]}  real requests over the in-memory network (keep-alive responses, read to
+        their end); keep = the caller keeps the finished response object.  Judged by the oracle only: after the history and a gc, every socket of a
+        pool that is no longer cached must be closed, every idle socket of a cached pool open.
 ops: ["get",k] ["set",k,v] ["del",k] ["len"] ["clear"] ["keys"] ["mget",k] ["contains",k] ["pop",k] ["setdefault",k,v] ["goc",k,tag]
 """
 from __future__ import annotations
@@ -43,6 +46,8 @@ def encode(case, obs=None):
         return [0, case["maxsize"], [enc_op(o) for o in case["ops"]]]
     if case["kind"] == "pm":
         return [2, case["num_pools"], [enc_op(o) for o in case["ops"]]]
+    if case["kind"] == "pmreq":
+        return [2, case["num_pools"], []]          # (never sent to the model)
     order = obs[0] if (obs and isinstance(obs, list) and obs and isinstance(obs[0], list)) else []
     return [1, case["maxsize"], [[enc_op(o) for o in p] for p in case["progs"]], order]
 
@@ -177,6 +182,61 @@ def impl_pm(case):
     return out, audit
 
 
+def impl_pmreq(case):
+    import urllib3
+    from netsim.fakesock import installed, Net, Peer, http_response
+
+    class NetK(Net):
+        def connect(self, sock, host, port):
+            sock.origin = int(host[4:host.index(".")])
+
+            def on_data(peer, data):
+                peer.buf = getattr(peer, "buf", b"") + data
+                while b"\r\n\r\n" in peer.buf:
+                    peer.buf = peer.buf.split(b"\r\n\r\n", 1)[1]
+                    peer.send(http_response(200, "OK", [], b"ok"))
+            return Peer(on_data)
+
+    net = NetK()
+    kept = []
+    out = []
+    with installed(net):
+        pm = urllib3.PoolManager(num_pools=case["num_pools"])
+        for o in case["ops"]:
+            if o[0] == "req":
+                r = pm.request("GET", url_of(o[1]), retries=False)
+                out.append([[1, r.status], len(pm.pools)])
+                if o[2]:
+                    kept.append((o[1], r))
+                del r
+            else:
+                pm.clear()
+                out.append([[0], len(pm.pools)])
+        idle = {}
+        with pm.pools.lock:
+            for p in pm.pools._container.values():
+                for c in list(p.pool.queue):
+                    if c is not None and getattr(c, "sock", None) is not None:
+                        idle[id(c.sock)] = c.sock
+        gc.collect()
+        audit = None
+        for sk in net.socks:
+            k = getattr(sk, "origin", None)
+            if k is None:
+                continue
+            if id(sk) not in idle and not sk.really_closed:
+                pinned = any(getattr(c, "sock", None) is sk for kk, r in kept if getattr(r, "_pool", None) is not None and r._pool.pool is not None
+                             for c in list(r._pool.pool.queue) if c is not None)
+                audit = ("a pool for origin %d is no longer cached and nothing uses it, but its idle socket is still open after gc%s"
+                         % (k, " (the caller still holds a finished, released response of that pool)" if pinned else ""))
+                break
+            if id(sk) in idle and sk.really_closed:
+                audit = "an idle socket of the cached pool for origin %d was closed behind the caller's back" % k
+                break
+        del kept[:]
+    return out, audit
+
+
 def impl_conc(case):
     from urllib3._collections import RecentlyUsedContainer
     from netsim.locksched import Sched, SchedRLock
@@ -262,9 +322,17 @@ def impl(case):
         out, audit = impl_pm(case)
         _STASH[id(case)] = audit
         return out + ([[[9, 9]]] if False else [])
+    if case["kind"] == "pmreq":
+        out, audit = impl_pmreq(case)
+        _STASH[id(case)] = audit
+        return out
     obs, problems = impl_conc(case)
     _STASH[id(case)] = problems
     return obs
+
+
+def in_model_domain(case):
+    return case["kind"] != "pmreq"
 
 
 _STASH = {}
@@ -369,6 +437,14 @@ def oracle(case, obs):
             if obs[i] != exp:
                 return "PoolManager op #%d %r: got %r, reference LRU cache says %r" % (i, o, obs[i], exp)
         return audit
+    if case["kind"] == "pmreq":
+        audit = _STASH.pop(id(case), None)
+        ref = RefLRU(case["num_pools"])
+        for i, o in enumerate(case["ops"]):
+            r = ref.apply(["goc", o[1], 0] if o[0] == "req" else o)
+            if obs[i][1] != len(ref.items):
+                return "PoolManager op #%d %r: %d pools cached, reference LRU cache says %d" % (i, o, obs[i][1], len(ref.items))
+        return audit
     problems = _STASH.pop(id(case), [])
     if problems:
         return problems[0]
@@ -394,6 +470,8 @@ def oracle(case, obs):
 
 
 def signature(case, obs, msg):
+    if case["kind"] == "pmreq" and "the caller still holds a finished, released response of that pool" in (msg or ""):
+        return {"kind": "evicted-pool-pinned-by-finished-response"}
     return {"kind": case["kind"], "msg": (msg or "")[:60]}
 
 
@@ -403,7 +481,7 @@ def nontrivial(case, obs):
         if any(o[1] or o[0] == [2] or o[0][0] == 1 for o in obs):
             return h
         return None
-    if case["kind"] == "pm":
+    if case["kind"] in ("pm", "pmreq"):
         return h if len(case["ops"]) > 1 else None
     return h if len(obs[0]) > 1 else None
 
@@ -499,6 +577,18 @@ def cases(rng, tier):
             else:
                 ops.append(["goc", rng.choice(KEYS), 100 + j])
         out.append({"kind": "pm", "num_pools": m, "ops": ops})
+    # real requests; the caller keeps some of the finished responses
+    for m in (1, 2):
+        for keep in (False, True):
+            out.append({"kind": "pmreq", "num_pools": m, "ops": [["req", 1, keep], ["req", 2, False], ["req", 3, False]]})
+            out.append({"kind": "pmreq", "num_pools": m, "ops": [["req", 1, keep], ["clear"], ["req", 2, False]]})
+            out.append({"kind": "pmreq", "num_pools": m, "ops": [["req", 1, keep], ["req", 1, False], ["req", 2, keep], ["req", 3, False], ["req", 1, False]]})
+    for i in range(npm // 2):
+        m = rng.choice([1, 2, 3])
+        ops = []
+        for j in range(rng.randint(2, 7)):
+            ops.append(["clear"] if rng.random() < 0.12 else ["req", rng.choice(KEYS), rng.random() < 0.3])
+        out.append({"kind": "pmreq", "num_pools": m, "ops": ops})
     for i in range(npm // 2):
         nt = rng.choice([2, 3])
         m = rng.choice([1, 2])
@@ -517,7 +607,7 @@ def cases(rng, tier):
 
 
 def shrinks(case):
-    if case["kind"] in ("seq", "pm"):
+    if case["kind"] in ("seq", "pm", "pmreq"):
         ops = case["ops"]
         for i in range(len(ops)):
             c = dict(case); c["ops"] = ops[:i] + ops[i + 1:]
